@@ -24,6 +24,23 @@ PIECES = ".KQRBNPkqrbnp"
 F1_FEN = "QQQQQQnk/Q4Qpp/Q5QQ/Q6Q/Q6Q/Q6Q/Q6Q/KQQQQQQQ w - - 0 1"
 F1_KEY = "F1-movelist-overflow-fen-with-more-than-256-pseudo-legal-moves"
 MOVELIST_CAPACITY = 256
+# finding F2 (C17): readFEN takes any int as half-move clock; Position::historyHash / bookHash index
+# moveCntKeys[std::min(halfMoveClock, 100)] without a lower bound (and makeMove increments INT_MAX: signed overflow)
+F2_FEN = "8/8/1k6/8/8/8/2R3K1/8 w - - -100000 27"
+F2_KEY = "F2-negative-halfmove-clock-from-fen-indexes-moveCntKeys-out-of-range"
+
+
+def fen_clock_out_of_range(fenhex):
+    """half-move clock field of a FEN as std::stoi reads it: negative, or so large that ++ overflows"""
+    try:
+        f = unhx(fenhex).decode("latin-1").split()
+        m = re.match(r"[+-]?\d+", f[4]) if len(f) > 4 else None
+        if not m:
+            return False
+        v = int(m.group(0))
+        return -2**31 <= v < 0 or 2**31 - 1000 <= v <= 2**31 - 1
+    except Exception:
+        return False
 
 
 def hx(b):
@@ -383,8 +400,20 @@ def gen_engine_script(rng, fens):
         r = rng.random()
         if r < 0.3:
             f = rng.choice(fens)
-            lines.append(b"position fen " + (f.encode("latin-1") if rng.random() < 0.7 else c02.mutate_fen(rng, f)).replace(b"\n", b" ")
-                         + (b" moves " + b" ".join(gen_uci_move_strings(rng, 3)) if rng.random() < 0.5 else b""))
+            if rng.random() < 0.35:
+                # a valid placement with boundary values in the two counters (they reach the search as ints)
+                w = f.split(" ")
+                if len(w) >= 6:
+                    w[4] = rng.choice(["-1", "-7", "-100000", "-2147483648", "99", "100", "101", "5000", "2147483647", "2147483646"])
+                    w[5] = rng.choice(["0", "-3", "1", "65536", "2147483647", "-2147483648"])
+                    f = " ".join(w)
+                fb = f.encode("latin-1")
+            else:
+                fb = f.encode("latin-1") if rng.random() < 0.6 else c02.mutate_fen(rng, f)
+            lines.append(fb.replace(b"\n", b" ").join([b"position fen ", b""])
+                         + (b" moves " + b" ".join(gen_uci_move_strings(rng, 3)) if rng.random() < 0.4 else b""))
+            if rng.random() < 0.7:
+                lines.append(rng.choice([b"go depth 1", b"go depth 2", b"go nodes 200"]))
         elif r < 0.65:
             parts = [b"go"]
             for _ in range(rng.randrange(0, 5)):
@@ -406,6 +435,7 @@ def gen_engine_script(rng, fens):
         else:
             lines.append(rand_bytes(rng, rng.randrange(1, 80)).replace(b"\n", b" ").replace(b"\r", b" "))
     # never resize the hash table / thread pool from a garbage value
+    lines = [l.replace(b"\n", b" ") for l in lines]
     lines = [l for l in lines if b"hash" not in l.lower() and b"thread" not in l.lower() and b"gaviota" not in l.lower() and b"syzygy" not in l.lower()]
     return lines
 
@@ -595,6 +625,12 @@ def spec_scan(obs, stats, harvest):
             stats["uciStringToMove_accepted"] = stats.get("uciStringToMove_accepted", 0) + sum(1 for x in l.split()[1:] if x != "0.0.0")
         elif c == "U":
             stats["uci_lines"] = stats.get("uci_lines", 0) + 1
+        elif c == "K":
+            toks = l.split()[1:]
+            stats["pgn_scanner_tokens"] = stats.get("pgn_scanner_tokens", 0) + len(toks)
+            for t in toks:
+                k = "pgn_scanner_token_type_" + t.split(":")[0]
+                stats[k] = stats.get(k, 0) + 1
     return fails
 
 
@@ -622,7 +658,7 @@ def crash_fens(cmd):
                 line = unhx(h)
             except ValueError:
                 continue
-            m = re.match(rb"\s*position\s+fen\s+(.*?)(\s+moves\b.*)?$", line)
+            m = re.match(rb"\s*position\s+fen\s+(.*?)(\s+moves\b.*)?$", line.split(b"\n")[0], re.S)
             if m:
                 out.append(hx(b" ".join(m.group(1).split())))
     return out
@@ -677,6 +713,8 @@ def shrink_cmd(cpp_exe, ml_exe, cmd):
                 return "UCM " + shorten("UCM ", s)
     if t[0] == "FEN" and len(t) == 2 and bad(cmd):
         return "FEN " + shorten("FEN ", t[1])
+    if t[0] == "SCAN" and len(t) == 2 and bad(cmd):
+        return "SCAN " + shorten("SCAN ", t[1])
     if t[0] == "UCI" and len(t) >= 2:
         cur = t[1:]
         i = len(cur) - 1
@@ -700,9 +738,9 @@ def describe_cmd(cmd):
         elif t[0] == "STM":
             d["fen"] = unhx(t[1]).decode("latin-1")
             d["strings"] = [unhx(x).decode("latin-1") for x in t[2:6]]
-        elif t[0] in ("UCM", "UCI"):
-            d["strings"] = [unhx(x).decode("latin-1") for x in t[1:8]]
-        elif t[0] == "PGN":
+        elif t[0] in ("UCM", "UCI", "ENGINE"):
+            d["strings"] = [unhx(x).decode("latin-1") for x in t[1:12]]
+        elif t[0] in ("PGN", "SCAN"):
             d["bytes"] = unhx(t[1]).decode("latin-1")[:600]
     except Exception:
         pass
@@ -872,6 +910,13 @@ def run(ctx):
                  for _ in range(ctx.scale(200, 10000))]
     base_texts = pgn_texts or [b"1. e4 e5 2. Nf3 *"]
     pgn_cmds += ["PGN " + hx(mutate_pgn(rng, rng.choice(base_texts))) for _ in range(ctx.scale(1500, 100000))]
+    # the tokenizer alone (modelled: TextIO/PgnScan.v): generated texts in every adjacency style, mutated and random bytes
+    scan_cmds = ["SCAN " + hx(t[:4096]) for t in base_texts]
+    scan_cmds += ["SCAN " + hx(mutate_pgn(rng, rng.choice(base_texts))) for _ in range(ctx.scale(2500, 150000))]
+    scan_cmds += ["SCAN " + hx(rand_bytes(rng, rng.randrange(0, 60), b"(){}[]\"$;%.*\\\n\r\t 019!?-+#=xNKQabO"))
+                  for _ in range(ctx.scale(2500, 150000))]
+    pgn_cmds += scan_cmds
+    ctx.count("pgn_scanner_inputs", len(scan_cmds))
     process(stm + ucm + fen_cmds + uci_cmds + pgn_cmds)
     ctx.count("malformed_move_strings", n_stm * 16)
     ctx.count("malformed_uci_move_strings", len(ucm) * 40)
@@ -879,7 +924,7 @@ def run(ctx):
     ctx.count("uci_sessions", len(uci_cmds))
 
     # the real engine binary on go / setoption / isready lines with broken arguments (crash / hang only)
-    n_eng = ctx.scale(16, 400)
+    n_eng = ctx.scale(24, 400)
     eng = cbuild.build_engine(net_kind="material", net_seed=1)
     scripts = [gen_engine_script(rng, fens) for _ in range(n_eng)]
     with ThreadPoolExecutor(max_workers=max(2, NCPU // 4)) as ex:
@@ -938,8 +983,25 @@ def run(ctx):
     else:
         ctx.log("F1 witness: no crash (harness %s, engine %s) - the MoveList overflow is not reproduced in this tree" % (rc_w, rc_e))
         ctx.count("f1_not_reproduced", 1)
+    # finding F2 likewise (engine level: the text layer accepts the clock, the search indexes a table with it)
+    rc_2, err_2, _o = engine_session(eng, [b"position fen " + F2_FEN.encode(), b"go depth 2"], timeout=60)
+    if rc_2 != 0:
+        ctx.violation("memory error after a FEN with a negative half-move clock: readFEN accepts it, Position::historyHash indexes "
+                      "moveCntKeys[min(halfMoveClock, 100)] with it (engine `position fen` + `go depth 2` exit %s)" % rc_2,
+                      {"failing_input": {"harness_command": "ENGINE %s %s" % (hx(b"position fen " + F2_FEN.encode()), hx(b"go depth 2")),
+                                         "engine_script": ["position fen " + F2_FEN, "go depth 2"], "engine_exit": rc_2, "stderr": err_2[-300:]}},
+                      key=F2_KEY)
+    else:
+        ctx.log("F2 witness: no crash - the out-of-range half-move clock is not reproduced in this tree")
+        ctx.count("f2_not_reproduced", 1)
     other_crashes = []
     for cmd, rc, msg in crashes:
+        if cmd.startswith("ENGINE ") and any(fen_clock_out_of_range(f) for f in crash_fens(cmd)):
+            ctx.count("generated_inputs_hitting_F2", 1)
+            ctx.violation("memory error after a FEN with an out-of-range half-move clock",
+                          {"failing_input": {"harness_command": cmd[:20000], "decoded": describe_cmd(cmd), "exit_status": rc, "stderr": msg}},
+                          key=F2_KEY)
+            continue
         cnts = [pseudo_count(ml_exe, f) for f in crash_fens(cmd)]
         if any(c > MOVELIST_CAPACITY for c in cnts):
             # the same defect met by a generated input
